@@ -916,8 +916,58 @@ func rulePQMap(c *Ctx, r *R) {
 			good = okU && okP && kp(us[0]) && kp(ps[0])
 		}
 		r.ok(good, "xheap.PriorityQueue.Update|update-iff-present", fn.Pos(), "Update must call UpdateAt(index from the map) exactly when the key is present and Push otherwise")
+		// ... and no way through Update avoids both: a fast path in front of UpdateAt ("same priority as before") compares
+		// priorities with ==, which panics for uncomparable P and is identity for pointers
+		pfu := &PF{N: 2}
+		pfu.Instr = func(_ *ssa.Function, in ssa.Instruction, q int) (StateSet, bool) {
+			if call, ok := in.(*ssa.Call); ok {
+				if cal := staticCallee(&call.Call); cal != nil && (fname(cal) == "UpdateAt" || fname(cal) == "Push") {
+					return ss(1), true
+				}
+			}
+			return 0, false
+		}
+		every := true
+		var badRet *ssa.Return
+		for _, e := range pfu.Exits(fn, ss(0)) {
+			if e.States.has(0) {
+				every, badRet = false, e.Ret
+			}
+		}
+		pos := fn.Pos()
+		if badRet != nil {
+			pos = retPos(badRet)
+		}
+		r.ok(every, "xheap.PriorityQueue.Update|always-updates", pos, "a path through Update returns without UpdateAt or Push: the priority handed in is not recorded (a shortcut that compares the old and the new priority with == panics for an uncomparable P and compares identity for a pointer P)")
 	} else {
 		r.undecided("xheap.PriorityQueue.Update|missing", token.NoPos, "anchor not found")
+	}
+	if fn := pq("Len"); fn != nil {
+		// the number of items is the heap's: the key map has one entry per DISTINCT key only for keys that equal themselves
+		// (a NaN key gets a fresh entry at every notification and is never deleted)
+		good := true
+		n := 0
+		instrs(fn, func(_ *ssa.BasicBlock, _ int, in ssa.Instruction) {
+			ret, ok := in.(*ssa.Return)
+			if !ok || len(ret.Results) != 1 {
+				return
+			}
+			n++
+			for _, lf := range valueLeaves(returnedValue(ret, 0), nil, 0) {
+				call, isCall := lf.v.(*ssa.Call)
+				if !isCall {
+					good = false
+					continue
+				}
+				cal := staticCallee(&call.Call)
+				if cal == nil || fname(cal) != "Len" || rootFn(origin(cal)).Pkg == nil || !strings.HasSuffix(rootFn(origin(cal)).Pkg.Pkg.Path(), "internal/heap") {
+					good = false
+				}
+			}
+		})
+		r.ok(good && n > 0, "xheap.PriorityQueue.Len|counts-heap-items", fn.Pos(), "Len must be the inner heap's Len(): the size of the key map differs from it for keys that are not equal to themselves (NaN), which get a new map entry at every index notification")
+	} else {
+		r.undecided("xheap.PriorityQueue.Len|missing", token.NoPos, "anchor not found")
 	}
 	for _, n := range []string{"Contains", "Priority"} {
 		fn := pq(n)
@@ -1010,7 +1060,9 @@ func rulePQMap(c *Ctx, r *R) {
 		instrs(cb, func(b *ssa.BasicBlock, i int, in ssa.Instruction) {
 			if mu, ok := in.(*ssa.MapUpdate); ok && np >= 2 && isPQKeyMap(mu.Map) {
 				kp := valueProv(mu.Key, provEnv{})
-				if kp.root == ssa.Value(cb.Params[np-2]) && len(kp.fields) == 1 && kp.fields[0] == "K" && mu.Value == ssa.Value(cb.Params[np-1]) {
+				// ... on every notification: a test in front of the store (`if h.m[x.K] != i`, where an absent key reads as 0)
+				// drops the first notification of a key that arrives for slot 0 - the key is in the heap and not in the map
+				if kp.root == ssa.Value(cb.Params[np-2]) && len(kp.fields) == 1 && kp.fields[0] == "K" && mu.Value == ssa.Value(cb.Params[np-1]) && len(guardsOf(b)) == 0 {
 					good = true
 				}
 			}
